@@ -39,9 +39,9 @@ def reduce_candidates(cell, case):
     return iter(())
 
 
-def _configs(op, da, db, k_total):
+def _configs(op, da, db, k_total, salt=""):
     out = []
-    key = f"{op.name}{da}{db}"
+    key = f"{op.name}{da}{db}{salt}"
     h = zlib.crc32(key.encode())
     for k in range(k_total):
         hk = h + k * 2654435761
@@ -70,6 +70,8 @@ def _configs(op, da, db, k_total):
             elif c == "other":
                 kb = "flat" if ka in build.NP_LAYOUTS else ("np1" if ka in ("flat",) else ka)
                 if ka == "np2":
+                    kb = "np2" if (hk >> 29) % 2 else "regular"
+                if ka == "regular":
                     kb = "np2"
             else:
                 kb = c
@@ -99,7 +101,26 @@ def cells(tier):
                     cfg = dict(cfg)
                     cfg["id"] = f"{op.name}|{da}|{db or ''}|{k}"
                     out.append(cfg)
+    # the operator spellings of add / subtract / scale go through each backend's own ufunc machinery
+    for opcall, (base, _) in OPCALLS.items():
+        op = OPS[base]
+        for da in op.self_dims:
+            for db in op.other_dims(da):
+                for k, cfg in enumerate(_configs(op, da, db, k_total, salt=opcall)):
+                    cfg = dict(cfg)
+                    cfg["opcall"] = opcall
+                    cfg["id"] = f"operator {opcall}|{da}|{db or ''}|{k}"
+                    out.append(cfg)
     return out
+
+
+OPCALLS = {
+    "a+b": ("add", lambda A, B, sc: A + B),
+    "a-b": ("subtract", lambda A, B, sc: A - B),
+    "a*s": ("scale", lambda A, B, sc: A * sc["factor"]),
+    "s*a": ("scale", lambda A, B, sc: sc["factor"] * A),
+    "a/s": ("scale", lambda A, B, sc: A / (1.0 / sc["factor"])),
+}
 
 
 def examples(cell, tier):
@@ -113,7 +134,7 @@ def strategy(cell, tier):
 
 
 def _desc(cell):
-    return (f"{cell['op']} a:{cell['ka']}/{cell['da']}{cell['sa']}/{cell['fa']}/{cell.get('spa')}"
+    return (f"{cell.get('opcall') or cell['op']} a:{cell['ka']}/{cell['da']}{cell['sa']}/{cell['fa']}/{cell.get('spa')}"
             + (f" b:{cell['kb']}/{cell['db']}{cell['sb']}/{cell['fb']}/{cell.get('spb')}" if cell.get("db") else "")
             + f" scal={cell.get('scal')} extra={cell.get('extra')}")
 
@@ -139,6 +160,14 @@ def check_case(cell, elems, ctx):
         o0 = elems[0]["s"]["order"]
         for e in elems:
             e["s"]["order"] = o0
+    if cell.get("opcall"):
+        kinds = (cell["ka"], cell.get("kb"))
+        if "record" in kinds and any(k in ("regular", "np2", "np2T") for k in kinds):
+            # Awkward itself cannot broadcast an ak.Record against a regular-dimension array inside a ufunc (reproduced with
+            # a two-line behavior and no vector code); only the method form, which vector broadcasts itself, is defined there
+            ctx.exclude("awkward_record_ufunc_vs_regular_array")
+            return
+        cell = dict(cell, _call=OPCALLS[cell["opcall"]][1])
     o = lattice.evaluate(cell, elems)
     be = _backend_label(cell)
     variant = f"{cell['da']}{cell['sa']}" + (f"+{cell['db']}{cell['sb']}" if cell.get("db") else "")
